@@ -50,6 +50,7 @@ def run(ctx, prog):
     ctx.rule('C20-D4', 'run() raises before any effect when the single-use marker is set, and sets it first otherwise')
     ctx.rule('C20-D5', 'str and Path outputs both construct the writer')
     ctx.rule('C20-D6', 'check() is a dry run: it stores into no attribute that run() or the report use')
+    ctx.rule('C20-D7', 'a bare output file name is accepted: no directory call on os.path.dirname(name) without a fallback for the empty string')
     ctx.assume('the user function either returns (None / data) or raises Exception / KeyboardInterrupt; the ETS writer stores what it is given')
     ci = prog.need_class('scared.synchronization', 'Synchronizer')
     from .. import inline
@@ -304,6 +305,7 @@ def run(ctx, prog):
     if not found:
         ctx.undecided('C20-D5', f'{chk.key}::writer branch', 'branch constructing the writer not recognised', chk.where())
     d6(ctx, prog, ci, inline)
+    d7(ctx, prog, ci)
     # the handler that swallows the user function's exceptions must not cover the writer: a writer failure (output that already
     # holds traces, disk error) would be counted as a rejected trace and run() would return an output that is not the accepted traces
     pm_ = astutil.parents(run_f.node)
@@ -356,6 +358,46 @@ def d6(ctx, prog, ci, inline):
     hit = sorted(a for a in written if a in used)
     ctx.check(not hit, 'C20-D6', key, f'check() changes `self.{hit[0] if hit else ""}` ({norm(written[hit[0]])[:60] if hit else ""}), which run() / the report use: after a check() the run no longer starts from the '
               'constructor\'s state (write index, counters or output are off by what check() did)', f'check() (callees inlined) stores into none of the {len(used)} attributes the other methods use', chk.where(written[hit[0]]) if hit else chk.where())
+
+
+DIRCALLS = {'os.makedirs', 'os.mkdir', 'os.listdir', 'os.chdir', 'os.scandir', 'os.stat', 'os.access'}
+
+
+def d7(ctx, prog, ci):
+    """The output may be a bare file name (`'out.ets'`): `os.path.dirname` of it is the empty string, on which every directory
+    call of `os` raises FileNotFoundError, so the constructor would refuse a documented output.  Exact rule: in the methods of the
+    class, a directory call whose path argument is `os.path.dirname(...)` (directly or through a once-assigned local) with no `or`
+    fallback and no truthiness guard on that value.  (`pathlib.Path(x).parent` is '.', never empty: not concerned.)"""
+    n_calls = 0
+    for name, f in sorted(ci.methods.items()):
+        pm = astutil.parents(f.node)
+        once = {}
+        for n in ast.walk(f.node):
+            if isinstance(n, ast.Assign) and len(n.targets) == 1 and isinstance(n.targets[0], ast.Name):
+                once.setdefault(n.targets[0].id, []).append(n.value)
+        for c in ast.walk(f.node):
+            if not (isinstance(c, ast.Call) and isinstance(c.func, (ast.Name, ast.Attribute)) and (c.args or c.keywords)):
+                continue
+            d = prog.dotted(f.mod, c.func)
+            if d not in DIRCALLS:
+                continue
+            n_calls += 1
+            arg = c.args[0] if c.args else c.keywords[0].value
+            via = None
+            if isinstance(arg, ast.Name) and len(once.get(arg.id, ())) == 1:
+                via, arg = arg.id, once[arg.id][0]
+            is_dirname = isinstance(arg, ast.Call) and isinstance(arg.func, (ast.Name, ast.Attribute)) and prog.dotted(f.mod, arg.func) in ('os.path.dirname', 'posixpath.dirname', 'ntpath.dirname')
+            key = f'{f.key}::{d}({norm(c.args[0] if c.args else c.keywords[0].value)[:40]})'
+            if not is_dirname:
+                ctx.ok('C20-D7', key, 'the path argument is not a bare os.path.dirname(...)', f.where(c))
+                continue
+            guarded = any(pol and (norm(t) == via or norm(t) == norm(arg)) for t, pol in astutil.guards_ext(c, pm, f.node)) or \
+                any((not pol) and isinstance(t, ast.UnaryOp) and isinstance(t.op, ast.Not) and norm(t.operand) in (via, norm(arg)) for t, pol in astutil.guards_ext(c, pm, f.node))
+            ctx.check(guarded, 'C20-D7', key, f'`{norm(c)[:90]}`: for a bare output file name os.path.dirname gives the empty string and {d}(\'\') raises FileNotFoundError - '
+                      'the constructor refuses an output it documents', 'the directory call is guarded against the empty directory name', f.where(c))
+    ctx.unit('directory_calls_on_output', n_calls)
+    if n_calls == 0:
+        ctx.ok('C20-D7', f'{ci.key}::directory calls', 'no directory call of os in the class: the output name reaches the writer as given', ci.mod.relpath)
 
 
 def label(k):
